@@ -21,7 +21,12 @@ var VerifHarnesses = map[string]func(){
 type vSigned struct {
 	Root byte
 	Sig  uint64
+	Bad  bool // a value that cannot be cloned (like a non-canonical encoding that fails its serialisation round trip)
 }
+
+type vCloneErr struct{}
+
+func (vCloneErr) Error() string { return "clone failed" }
 
 func (v vSigned) Signature() core.Signature                            { return nil }
 func (v vSigned) SetSignature(core.Signature) (core.SignedData, error) { return v, nil }
@@ -30,9 +35,14 @@ func (v vSigned) MessageRoot() ([32]byte, error) {
 	r[0] = v.Root
 	return r, nil
 }
-func (v vSigned) Clone() (core.SignedData, error) { return v, nil }
+func (v vSigned) Clone() (core.SignedData, error) {
+	if v.Bad {
+		return nil, vCloneErr{}
+	}
+	return v, nil
+}
 func (v vSigned) MarshalJSON() ([]byte, error) {
-	return []byte(fmt.Sprintf(`{"root":%d,"sig":%d}`, v.Root, v.Sig)), nil
+	return []byte(fmt.Sprintf(`{"root":%d,"sig":%d,"bad":%v}`, v.Root, v.Sig, v.Bad)), nil
 }
 
 type vDeadliner struct {
@@ -138,7 +148,10 @@ func VerifC07Single() {
 		internal := (vrt.Param("ints")>>s)&1 == 1
 		vrt.Assume(idx >= 1 && idx <= n)
 		vrt.Assume(root < 3)
-		set := core.ParSignedDataSet{pk: core.ParSignedData{SignedData: vSigned{Root: root, Sig: sig}, ShareIdx: idx}}
+		// "bad"=1: a partial may be a value that cannot be cloned: it must be refused with an error (never stored, never a
+		// crash when the threshold set is copied for the subscribers)
+		bad := vrt.Param("bad") == 1 && vrt.Bool(vrt.N("uncloneable", s))
+		set := core.ParSignedDataSet{pk: core.ParSignedData{SignedData: vSigned{Root: root, Sig: sig, Bad: bad}, ShareIdx: idx}}
 		fire.cnt = [2]int{}
 		before := internalCalls
 		var err error
@@ -151,9 +164,11 @@ func VerifC07Single() {
 		expectErr := false
 		expectFire := false
 		if g.has[v][idx] {
-			if g.root[v][idx] != root || g.sig[v][idx] != sig {
+			if g.root[v][idx] != root || g.sig[v][idx] != sig || bad {
 				expectErr = true
 			}
+		} else if bad {
+			expectErr = true
 		} else {
 			g.has[v][idx], g.root[v][idx], g.sig[v][idx] = true, root, sig
 			if dtype == core.DutySignature {
